@@ -17,6 +17,7 @@ from framework import Ob, AnchorMissing
 from flow import local_target
 
 SCOPE = ('bbsplus::', 'utils::util::bbsplus_utils', 'utils::message::bbsplus_message', 'keys::', 'schemes::')
+SCOPE_CL03 = ('cl03::', 'utils::random', 'utils::util::cl03_utils')
 
 OBSERVE = ('std::ops::Try::branch', 'std::ops::FromResidual::from_residual')
 OBSERVE_SUFFIX = ('::is_ok', '::is_err', '::is_none', '::is_some', '::unwrap', '::expect', '::is_ok_and', '::is_some_and', '::is_err_and', '::is_none_or',
@@ -41,6 +42,37 @@ def is_fallible_ty(ty):
     if ty.startswith(('elliptic_curve::subtle::CtOption<', 'subtle::CtOption<')):
         return True
     return False
+
+
+def refusing_option_fn(prog, path):
+    """a local function that returns Option and builds both `Some(..)` and `None` itself: None is its way of refusing an input
+    (`fn attribute_term(..) -> Option<Integer> { if out_of_range { return None } Some(..) }`)"""
+    b = prog.bodies.get(path)
+    if b is None or b.kind == 'Closure' or not b.local_ty(0).startswith('std::option::Option<'):
+        return False
+    some = none = False
+    for bi, st in b.stmts():
+        if st['k'] == 'assign' and st['dst']['l'] == 0 and not st['dst'].get('p') and st['rv']['k'] == 'agg':
+            v = st['rv'].get('variant')
+            some = some or v == 'Some'
+            none = none or v == 'None'
+    return some and none
+
+
+def closure_returns_refusal(prog, eng, cpath):
+    """a closure whose value is (a pass-through of) the result of a refusing local function"""
+    cb = prog.bodies.get(cpath)
+    if cb is None:
+        return None
+    if is_fallible_ty(cb.local_ty(0)):
+        return cpath.split('::')[-1]
+    if not cb.local_ty(0).startswith('std::option::Option<'):
+        return None
+    for bi, t in cb.calls():
+        tgt = local_target(eng, t)
+        if tgt and refusing_option_fn(prog, tgt):
+            return tgt.split('::')[-1]
+    return None
 
 
 def _fn_value_fallible(prog, o):
@@ -153,7 +185,7 @@ class Follow:
         return '?'
 
 
-def rule_errors_not_discarded(ctx, cfg='prod-all', scope=SCOPE, rule='RF-Y'):
+def rule_errors_not_discarded(ctx, cfg='prod-all', scope=SCOPE, rule='RF-Y', min_sources=60):
     prog, eng = ctx.prog(cfg), ctx.eng(cfg)
     fo = Follow(ctx, cfg)
     n_src = n_val = 0
@@ -164,9 +196,10 @@ def rule_errors_not_discarded(ctx, cfg='prod-all', scope=SCOPE, rule='RF-Y'):
         for bi, t in b.calls():
             cal = t.get('callee') or ''
             short = cal.split('::')[-1]
-            # (1) a call whose result is fallible
-            if not t['dst'].get('p') and is_fallible_ty(b.local_ty(t['dst']['l'])) and cal not in OBSERVE and not cal.endswith(PASS_SUFFIX) \
-                    and not cal.endswith(ITER_COLLECT) and not cal.endswith(ITER_PASS):
+            # (1) a call whose result is fallible (the crate's Result, a checked constructor's CtOption, or the Option of a refusing local function)
+            tgt0 = local_target(eng, t)
+            if not t['dst'].get('p') and (is_fallible_ty(b.local_ty(t['dst']['l'])) or (tgt0 is not None and b.kind != 'Closure' and refusing_option_fn(prog, tgt0))) \
+                    and cal not in OBSERVE and not cal.endswith(PASS_SUFFIX) and not cal.endswith(ITER_COLLECT) and not cal.endswith(ITER_PASS):
                 n_src += 1
                 fate = fo.fate(p, t['dst']['l'])
                 cnt[short] = cnt.get(short, 0) + 1
@@ -180,8 +213,9 @@ def rule_errors_not_discarded(ctx, cfg='prod-all', scope=SCOPE, rule='RF-Y'):
                     fall, what = True, (a.get('fn') or '').split('::')[-1]
                 elif a.get('k') in ('copy', 'move') and not a['pl'].get('p'):
                     ci = eng.fndep(p)._closure_info(a['pl']['l'])
-                    if ci and ci[0] in prog.bodies and is_fallible_ty(prog.bodies[ci[0]].local_ty(0)):
-                        fall, what = True, ci[0].split('::')[-1]
+                    w0 = closure_returns_refusal(prog, eng, ci[0]) if ci and ci[0] in prog.bodies else None
+                    if w0:
+                        fall, what = True, w0
                 if not fall or k == 0:
                     continue
                 n_val += 1
@@ -202,7 +236,7 @@ def rule_errors_not_discarded(ctx, cfg='prod-all', scope=SCOPE, rule='RF-Y'):
                 else:
                     yield Ob(rule, key, None, 'a fallible function value reaches %s: not followed' % short, where, fact={'function': what, 'adaptor': cal}, expected='results observed',
                              nontrivial=False)
-    yield Ob(rule, 'crate#fallible-sources', n_src >= 60, 'fallible call results followed', '', fact={'call_results': n_src, 'function_values': n_val}, expected='>= 60', nontrivial=False)
+    yield Ob(rule, 'crate#fallible-sources', n_src >= min_sources, 'fallible call results followed', '', fact={'call_results': n_src, 'function_values': n_val}, expected='>= %d' % min_sources, nontrivial=False)
 
 
 def _verdict(rule, key, fate, b, t, what):
